@@ -26,6 +26,7 @@ def decl_specs(tier):
     for c in ('i1', 'i3', 'dn', 'm0', 'b35', 'sn', 'su', 'sr', 'o1', 'r1', 'rs', 'sdn'):
         specs.append({'names': [c], 'wrapper': 'd'})
     specs.extend(alphabet.families())
+    specs.extend(alphabet.boundary_specs())
     return specs
 
 
@@ -47,7 +48,7 @@ def check_value(dc, st, pv, how, reuse=None, prev=None):
         ref_roundtrips = False
     build = 'ir.construct(...)'
     try:
-        p = ir.construct(dc.mod, dc.P, pv, 'attr' if how == 'reuse' else how, reuse=reuse)
+        p = ir.construct(dc.mod, dc.P, pv, {'reuse': 'attr', 'reuse-auto': 'auto'}.get(how, how), reuse=reuse)
     except Exception as e:
         st.violate('construct-raises', 'building %r (%s) raised %r | %s' % (pv, how, e, srcline), dc.case(pv=pv.tojson(), how=how, prev=prev))
         return
@@ -105,13 +106,13 @@ def check_decl(dc, st, tier, only=None):
     if only is not None:
         reuse = None
         if only.get('prev') is not None:
-            reuse = ir.construct(dc.mod, dc.P, ir.val_fromjson(only['prev']), 'attr')
+            reuse = ir.construct(dc.mod, dc.P, ir.val_fromjson(only['prev']), 'auto' if only['how'] == 'reuse-auto' else 'attr')
             ea.impl_pack(reuse)
         check_value(dc, st, ir.val_fromjson(only['pv']), only['how'], reuse=reuse, prev=only.get('prev'))
         return
     budget = ea.budget_for(dc, tier)
     seen = set()
-    carry = None
+    carry = carry_auto = None
     for raw, r in ea.inputs_for(dc, budget):
         # rejected inputs are parsed too: a failed parse in between must not disturb the round trips that follow
         try:
@@ -129,11 +130,18 @@ def check_decl(dc, st, tier, only=None):
         if carry is not None:
             # a packet that held the PREVIOUS value and was packed is given the new values attribute by attribute
             check_value(dc, st, r[1].pv, 'reuse', reuse=carry[0], prev=carry[1])
-        carry = None
+        if carry_auto is not None:
+            # the same with the described fields left to their computation on both sides
+            check_value(dc, st, r[1].pv, 'reuse-auto', reuse=carry_auto[0], prev=carry_auto[1])
+        carry = carry_auto = None
         try:
             c0 = ir.construct(dc.mod, dc.P, r[1].pv, 'attr')
             if ea.impl_pack(c0)[0] == 'ok':
                 carry = (c0, r[1].pv.tojson())
+            if 'described' in dc.feats:
+                c1 = ir.construct(dc.mod, dc.P, r[1].pv, 'auto')
+                if ea.impl_pack(c1)[0] == 'ok':
+                    carry_auto = (c1, r[1].pv.tojson())
         except Exception:
             pass
         if 'seq' in dc.feats:
